@@ -110,6 +110,15 @@ func main() {
 			buildError(err)
 		}
 		fmt.Println(ov, st.Files, st.MapRangeSites)
+	case "px":
+		b, err := buildWorker(false)
+		if err != nil {
+			buildError(err)
+		}
+		cmd := exec.Command(b.worker, os.Args[1:]...)
+		cmd.Stdout, cmd.Stderr = os.Stdout, os.Stderr
+		cmd.Run()
+		b.cleanup()
 	case "replay":
 		os.Exit(replay(os.Args[2]))
 	case "curate":
@@ -536,6 +545,15 @@ func replay(path string) int {
 }
 
 func doCurate(prop, tier string, fails []proto.Fail) int {
+	if dump := os.Getenv("VERIF_DUMP_FAILS"); dump != "" {
+		if f, err := os.Create(dump); err == nil {
+			enc := json.NewEncoder(f)
+			for _, fl := range fails {
+				enc.Encode(fl)
+			}
+			f.Close()
+		}
+	}
 	cases := loadCases(prop)
 	added := 0
 	for _, f := range fails {
